@@ -252,7 +252,7 @@ pub fn budget(prop: &str, tier: Tier) -> u64 {
         "C04" => (5_000, 100_000),
         "C05" => (5_000, 100_000),
         "C06" => (16_000, 400_000),
-        "C07" => (8_000, 60_000),
+        "C07" => (8_000, 40_000),
         "C08" => (6_000, 40_000),
         "C09" => (12_000, 200_000),
         "C10" => (5_000, 100_000),
